@@ -62,6 +62,19 @@ def verify_function(reg, qual, prop):
             res.error = "parameter %s of %s has neither a kind in the contract nor a default" % (n, qual)
             return res
     st.vars["$alloc"] = vint(z3.Int("alloc0"))
+    # every reference received as input was allocated before the call (A-ALLOC)
+    a0 = z3.Int("alloc0")
+    for n, k in inputs:
+        v = st.vars[n]
+        if isinstance(k, KRef):
+            ctx.hyps.append(and_(v.terms[0] >= 0, v.terms[0] < a0))
+        elif isinstance(k, KOpt) and isinstance(k.elem, KRef):
+            ctx.hyps.append(and_(v.terms[1] >= 0, v.terms[1] < a0))
+        elif isinstance(k, KList) and isinstance(k.elem, KRef):
+            i = z3.Int(uid("ia"))
+            ctx.hyps.append(z3.ForAll([i], and_(z3.Select(v.terms[1], i) >= 0, z3.Select(v.terms[1], i) < a0)))
+        if isinstance(k, KList):
+            ctx.hyps.append(v.terms[0] >= 0)
     try:
         # touch every declared heap field read by the contract lazily: arrays are created on demand
         old = st.copy()
@@ -173,7 +186,7 @@ def package(reg, ctx, res):
             names |= decl_names(b, seen)
         used_ax = []
         # spec-function axioms: include those whose symbol occurs (transitively)
-        changed = True
+        changed = o.kind != "cover"     # covers: satisfiability of hypotheses + path, axioms left out
         included = set()
         while changed:
             changed = False
